@@ -76,7 +76,9 @@ class BaseFiles(Generic[Interface]):
         try:
             stat_result = os.stat(path)
             return stat_result, stat.S_ISREG(stat_result.st_mode)
-        except FileNotFoundError:
+        except (FileNotFoundError, NotADirectoryError, ValueError):
+            # NotADirectoryError: a component of the path is a regular file
+            # ValueError: embedded null byte, or a name that can not be encoded
             return None, False
 
     def if_none_match(self, etag: str, if_none_match: str) -> bool:
